@@ -32,7 +32,7 @@ var nodeKindBodies = []string{
 // failing / fine member bodies for history tests
 var memberBodies = []string{
 	"<p>{{.X}}</p>", "<a href=\"{{.X}}\">l</a>", "{{template \"h0\" .}}", "<b>{{template \"h1\" .}}</b>", "<a href=\"{{template \"h0\" .}}\">",
-	"<a href=\"", "<script>{{.X}}</script>", "{{if .C}}<a href=\"{{else}}x{{end}}", "{{range .L}}<a {{end}}", "<div {{.X}}>", "<a href=x{{.X}}>",
+	"<a href=\"", "<script>{{.X}}</script>", "{{if .C}}<a href=\"{{else}}x{{end}}", "{{range .L}}<a {{end}}", "<a href=\"{{range .L}}{{.}}javascript:{{end}}\">go</a>", "<a href=\"{{range .L}}{{.}}/x?y={{end}}\">go</a>", "<div {{.X}}>", "<a href=x{{.X}}>",
 	"{{template \"nope\" .}}", "<object>{{.X}}</object>", "text only", "", "{{.Y}}{{template \"h2\" .}}", "<p title='{{template \"h0\" .}}'>x</p>",
 	"<textarea>{{.X}}</textarea>", "<a href=\"/x?{{template \"h0\" .}}\">", "<script>{{template \"h0\" .}}</script>", "{{template \"m1\" .}}",
 	"{{with .M}}{{template \"h0\" .}}{{end}}", "<style>{{.Z}}</style>",
